@@ -176,10 +176,25 @@ class C11(vlib.Check):
                         w = ["1"] + ["0"] * (k - 1)
             self.count("batch")
             yield {"t": "batch", "o": rng.choice(["add", "mean"]), "fps": fps, "w": w}
+        # weights that are normalised only up to the precision they were written with (probabilities rounded to five or six decimals,
+        # a sum that is 1 +- 1e-5 .. 1e-6 but not 1): the mean divides by the actual sum
+        for wv in [["33333/100000"] * 3, ["499999/1000000", "1/2"], ["1/4", "1/4", "1/4", "250003/1000000"], ["1/2", "1/2", "1/131072"],
+                   ["99999/100000"], ["3/2", "-3/4", "249992/1000000"]][: 6 if self.tier == "quick" else 6]:
+            for o_ in ("mean", "add"):
+                bits = rng.choice([64, 1024, 2 ** 32])
+                kinds = rng.choice([["bit"], ["count"], ["float"], ["bit", "count", "float"]])
+                fps = [gen_fp(rng, rng.choice(kinds), bits, level=5, maxn=8) for _ in wv]
+                if any(Fraction(x) < 0 for x in wv):
+                    # (a negative weight: disjoint supports, so that no position cancels)
+                    for j, f in enumerate(fps):
+                        f["idx"] = [i for i in f["idx"] if i % len(wv) == j]
+                        f["cnt"] = [[i, v] for i, v in f["cnt"] if i % len(wv) == j]
+                self.count("batch:weights-sum-near-one")
+                yield {"t": "batch", "o": o_, "fps": fps, "w": list(wv)}
         # many operands: the count at a position shared by all of them passes 255 / 65 535 (what narrow accumulators hold)
         for k, o in ([(256, "mean"), (512, "add"), (300, "add"), (66000, "add")] if self.tier == "quick" else
                      [(256, "mean"), (512, "add"), (300, "add"), (66000, "add"), (1024, "mean"), (257, "add"), (70000, "add"), (131100, "add"), (65536, "mean")]):
-            bits = rng.choice([8, 64, 2 ** 32])
+            bits = rng.choice([8, 64, 2 ** 32]) if k <= 1024 else rng.choice([8, 64])      # (the list model's sum is quadratic in the number of distinct positions)
             common = rng.randrange(bits)
             kinds = rng.choice([["bit"], ["bit", "count"], ["count"]])
             fps = []
